@@ -240,6 +240,55 @@ impl Compiler {
         Ok(())
     }
 
+    /// Drain the iterator in `iter_reg` into a fresh array in `dst` (rest element of an array
+    /// pattern). Works for every iterable because it goes through the iterator protocol.
+    fn compile_iterator_rest(&mut self, iter_reg: Register, dst: Register) -> Result<(), JsError> {
+        let result_reg = self.builder.alloc_register()?;
+        let value_reg = self.builder.alloc_register()?;
+        let single_arr = self.builder.alloc_register()?;
+
+        // dst = []
+        self.builder.emit(Op::CreateArray {
+            dst,
+            start: value_reg,
+            count: 0,
+        });
+
+        let loop_start = self.builder.current_offset();
+        self.builder.emit(Op::IteratorNext {
+            dst: result_reg,
+            iterator: iter_reg,
+        });
+        let done_idx = self.builder.emit(Op::IteratorDone {
+            result: result_reg,
+            target: 0,
+        });
+        let done_jump = super::JumpPlaceholder {
+            instruction_index: done_idx,
+        };
+        self.builder.emit(Op::IteratorValue {
+            dst: value_reg,
+            result: result_reg,
+        });
+        // dst.push(value): append a one-element array
+        self.builder.emit(Op::CreateArray {
+            dst: single_arr,
+            start: value_reg,
+            count: 1,
+        });
+        self.builder.emit(Op::SpreadArray {
+            dst,
+            src: single_arr,
+        });
+        self.builder.emit_jump_to(loop_start);
+        self.builder.patch_jump(done_jump);
+
+        self.builder.free_register(single_arr);
+        self.builder.free_register(value_reg);
+        self.builder.free_register(result_reg);
+        Ok(())
+    }
+
     /// Compile array pattern binding
     fn compile_array_pattern_binding(
         &mut self,
@@ -268,10 +317,8 @@ impl Compiler {
                     // Collect remaining elements into an array
                     // This exhausts the iterator, so no need to close it
                     let rest_arr = self.builder.alloc_register()?;
-                    self.builder.emit(Op::CreateRestArray {
-                        dst: rest_arr,
-                        start_index: i as u8,
-                    });
+                    let _ = i;
+                    self.compile_iterator_rest(iter_reg, rest_arr)?;
                     self.compile_pattern_binding(&rest.argument, rest_arr, mutable, is_var)?;
                     self.builder.free_register(rest_arr);
                     iterator_exhausted = true;
@@ -523,10 +570,8 @@ impl Compiler {
             if let Some(pattern) = elem {
                 if let Pattern::Rest(rest) = pattern {
                     let rest_arr = self.builder.alloc_register()?;
-                    self.builder.emit(Op::CreateRestArray {
-                        dst: rest_arr,
-                        start_index: i as u8,
-                    });
+                    let _ = i;
+                    self.compile_iterator_rest(iter_reg, rest_arr)?;
                     self.compile_pattern_assignment(&rest.argument, rest_arr)?;
                     self.builder.free_register(rest_arr);
                     iterator_exhausted = true;
